@@ -434,3 +434,27 @@ mod test {
         assert!(!prog.diverging);
     }
 }
+
+#[cfg(nuts_rs_verif)]
+impl<M: Math, A: MassMatrixAdaptStrategy<M>> GlobalStrategy<M, A> {
+    /// Verification hook: `[num_tune, early_end, final_step_size_window, tuning, has_initial_mass_matrix,
+    /// last_update, current_window_size, foreground count, background count]`.
+    pub fn verif_counters(&self) -> [u64; 9] {
+        [
+            self.num_tune,
+            self.early_end,
+            self.final_step_size_window,
+            self.tuning as u64,
+            self.has_initial_mass_matrix as u64,
+            self.last_update,
+            self.current_window_size,
+            self.mass_matrix_adapt.current_count(),
+            self.mass_matrix_adapt.background_count(),
+        ]
+    }
+
+    /// Verification hook: internal state of the step-size adaptation (see `Strategy::verif_state`).
+    pub fn verif_step_size_state(&self) -> (u8, [f64; 4], u64) {
+        self.step_size.verif_state()
+    }
+}
